@@ -21,13 +21,27 @@ def main():
     calls = {'trial': 0, 'save': 0}
     real_run_once = ds.run_once
 
+    side = a['out'] + '.executed'
+
+    def note():
+        try:
+            with open(side, 'w') as f_:
+                f_.write(str(calls['done']))
+        except Exception:
+            pass
+    calls['done'] = 0
+
     def run_once(*args, **kw):
         calls['trial'] += 1
         if ev['kind'] == 'kbd_trial' and calls['trial'] == ev['at']:
             raise KeyboardInterrupt()
         if ev['kind'] == 'kill_trial' and calls['trial'] == ev['at']:
             os._exit(9)
-        return real_run_once(*args, **kw)
+        r_ = real_run_once(*args, **kw)
+        calls['done'] += 1
+        note()
+        return r_
+    note()
     ds.run_once = run_once
 
     real_save = U.save_json
